@@ -2,6 +2,7 @@ package main
 
 import (
 	"fmt"
+	"go/token"
 	"go/types"
 	"sort"
 	"strings"
@@ -64,9 +65,26 @@ func (w *World) ruleKindNarrowing(r *Report, rule string) {
 	// beside the kind dispatch must obey the same discipline)
 	reach := w.reachPkg(w.encoderRoots()...)
 	n := 0
+	// the scalar encoders (and what they call) cut the value into octets: those
+	// conversions are the wire layout, decided by R2's octet windows
+	scalarEnc := map[*ssa.Function]bool{}
+	for _, c := range w.codecs() {
+		if c.Enc != nil {
+			for g := range w.reachPkg(c.Enc) {
+				scalarEnc[g] = true
+			}
+		}
+	}
 	for _, wd := range w.SrcFuncs() {
-		if !reach[wd] || wd.Signature.Recv() == nil || !namedIs(wd.Signature.Recv().Type(), hessianPath, "Encoder") {
+		if !reach[rootFn(wd)] {
 			continue
+		}
+		if wd.Signature.Recv() == nil || !namedIs(wd.Signature.Recv().Type(), hessianPath, "Encoder") {
+			// helpers of the encoder (and closures): only conversions of integers that
+			// provably are (part of) the value being encoded
+			if scalarEnc[wd] || !w.hasInputIntegerConv(wd) {
+				continue
+			}
 		}
 		r.fnSeen(fnName(wd))
 		f := w.flow(wd)
@@ -87,7 +105,7 @@ func (w *World) ruleKindNarrowing(r *Report, rule string) {
 				}
 				// only conversions of the reflected VALUE (v.Int(), v.Uint()); container
 				// sizes and octet extraction are other rules' business
-				if tk := f.term(cv.X).Key(); !strings.Contains(tk, "(reflect.Value).Int(") && !strings.Contains(tk, "(reflect.Value).Uint(") {
+				if tk := f.term(cv.X).Key(); !strings.Contains(tk, "(reflect.Value).Int(") && !strings.Contains(tk, "(reflect.Value).Uint(") && !w.isInputInteger(cv.X) {
 					continue
 				}
 				n++
@@ -356,3 +374,139 @@ func (w *World) kindTables() (*kindTable, error) {
 }
 
 var _ = types.Typ
+
+// ---- integers that are (part of) the value being encoded ----
+
+// isInputInteger: v is an integer obtained from the value handed to the
+// encoder without arithmetic: the result of reflect.Value.Int/Uint, of a type
+// assertion on an interface, or an element / field / map entry / range item of
+// something so obtained (also through parameters of in-package helpers, by a
+// fixpoint over call sites).  Lengths and indices are not: len() and
+// arithmetic end the chain.
+func (w *World) isInputInteger(v ssa.Value) bool {
+	if w.inputParam == nil {
+		w.inputParam = map[*ssa.Parameter]bool{}
+		for round := 0; round < 5; round++ {
+			changed := false
+			for _, fn := range w.allPkgFuncs() {
+				for _, b := range fn.Blocks {
+					for _, in := range b.Instrs {
+						c, ok := in.(*ssa.Call)
+						if !ok {
+							continue
+						}
+						sc := c.Call.StaticCallee()
+						if sc == nil || !w.inPkg(sc) || sc.Blocks == nil {
+							continue
+						}
+						for i, a := range c.Call.Args {
+							if i >= len(sc.Params) || w.inputParam[sc.Params[i]] {
+								continue
+							}
+							if !holdsIntegers(a.Type()) {
+								continue
+							}
+							if w.derivesFromInput(a, map[ssa.Value]bool{}) {
+								w.inputParam[sc.Params[i]] = true
+								changed = true
+							}
+						}
+					}
+				}
+			}
+			if !changed {
+				break
+			}
+		}
+	}
+	return w.derivesFromInput(v, map[ssa.Value]bool{})
+}
+
+// holdsIntegers: an integer type or a slice / array / map / pointer to such.
+func holdsIntegers(t types.Type) bool {
+	for i := 0; i < 4; i++ {
+		switch u := t.Underlying().(type) {
+		case *types.Basic:
+			return u.Info()&types.IsInteger != 0
+		case *types.Slice:
+			t = u.Elem()
+		case *types.Array:
+			t = u.Elem()
+		case *types.Pointer:
+			t = u.Elem()
+		case *types.Map:
+			return holdsIntegers(u.Key()) || holdsIntegers(u.Elem())
+		default:
+			return false
+		}
+	}
+	return false
+}
+
+func (w *World) derivesFromInput(v ssa.Value, seen map[ssa.Value]bool) bool {
+	if v == nil || seen[v] {
+		return false
+	}
+	seen[v] = true
+	switch x := v.(type) {
+	case *ssa.Parameter:
+		return w.inputParam[x]
+	case *ssa.TypeAssert:
+		return holdsIntegers(x.AssertedType)
+	case *ssa.Call:
+		if sc := x.Call.StaticCallee(); sc != nil {
+			switch qualifiedFnName(sc) {
+			case "(reflect.Value).Int", "(reflect.Value).Uint":
+				return true
+			}
+		}
+		return false
+	case *ssa.Extract:
+		return w.derivesFromInput(x.Tuple, seen)
+	case *ssa.Next:
+		return w.derivesFromInput(x.Iter, seen)
+	case *ssa.Range:
+		return w.derivesFromInput(x.X, seen)
+	case *ssa.UnOp:
+		if x.Op == token.MUL {
+			return w.derivesFromInput(x.X, seen)
+		}
+		return false
+	case *ssa.IndexAddr:
+		return w.derivesFromInput(x.X, seen)
+	case *ssa.Index:
+		return w.derivesFromInput(x.X, seen)
+	case *ssa.Lookup:
+		return w.derivesFromInput(x.X, seen)
+	case *ssa.Field:
+		return w.derivesFromInput(x.X, seen)
+	case *ssa.FieldAddr:
+		return w.derivesFromInput(x.X, seen)
+	case *ssa.Slice:
+		return w.derivesFromInput(x.X, seen)
+	case *ssa.ChangeType:
+		return w.derivesFromInput(x.X, seen)
+	case *ssa.Convert:
+		return w.derivesFromInput(x.X, seen)
+	case *ssa.Phi:
+		for _, e := range x.Edges {
+			if w.derivesFromInput(e, seen) {
+				return true
+			}
+		}
+	}
+	return false
+}
+
+func (w *World) hasInputIntegerConv(fn *ssa.Function) bool {
+	for _, b := range fn.Blocks {
+		for _, in := range b.Instrs {
+			if cv, ok := in.(*ssa.Convert); ok {
+				if _, _, ok1 := intTypeInfo(w, cv.X.Type()); ok1 && w.isInputInteger(cv.X) {
+					return true
+				}
+			}
+		}
+	}
+	return false
+}
